@@ -1,4 +1,6 @@
 """C01 - every message taken from the broker is executed exactly once."""
+import json
+import os
 import common as C
 import recv_props as R
 
@@ -244,8 +246,36 @@ def run(ctx):
     if (broken or any(not o["ok"] for o in rep.obligations)) and not rep.failures:
         r2 = ctx.sub_rng("search")
         explore(ctx, rep, [R.gen_scenario(r2, PROF_BACKLOG) for _ in range(ctx.n(2000, 20000))], "search")
+    d16 = known_d16(ctx, rep) if d16_reg else False
     rep.extra["known_finding_D16_hits_this_run"] = sum(1 for f in rep.failures if R.sig_d16(f))
-    return rep.finish({R.SIG_D16: R.sig_d16}, {})
+    return rep.finish({R.SIG_D16: R.sig_d16}, {R.SIG_D16: d16})
+
+
+def known_d16(ctx, rep):
+    """known finding D16 as registered for C01 (known_findings.json; same input as for C02): its replay under corpus/C02/known runs
+    on every check through the driver and this property's direct oracle, so that the KNOWN-FINDING line does not depend on the
+    generated cancellation family reaching the shape within the quick budget.  True iff it reproduced WITH its signature."""
+    d = os.path.join(C.VERIF, "corpus", "C02", "known")
+    files = sorted(f for f in os.listdir(d) if f.startswith("d16_") and f.endswith(".json")) if os.path.isdir(d) else []
+    cases = []
+    for f in files:
+        rec = json.load(open(os.path.join(d, f)))
+        cases.append(rec["case"] if "case" in rec else rec)
+    hit = False
+    for f, sc, o in zip(files, cases, C.run_driver(ctx, "recv_driver", cases) if cases else []):
+        rep.case(sc, True)
+        rep.count("known-finding-replay:" + f[:-5])
+        if "_crash" in o:
+            rep.fail("driver crashed", sc, observed=o["_crash"], sig=dict(kind="crash"))
+            continue
+        for fl in oracle(sc, o):
+            hit = hit or R.sig_d16(fl)
+            rep.fail(fl["what"], sc, observed=fl["observed"], expected=fl["expected"], sig=fl["sig"])
+    rep.extra["corpus_d16_sync_function_submitted_after_pool_shutdown"] = \
+        "reproduces (known finding)" if hit else "does NOT reproduce on this tree: the known_findings.json entry is stale"
+    if files and not hit:
+        print("NOTE: property=C01 known finding %s no longer reproduces from corpus/C02/known - its known_findings.json entry is stale" % R.SIG_D16)
+    return hit
 
 
 def replay(ctx, path):
